@@ -2,7 +2,7 @@
    a case = a scenario (Model/Factory.v), the names looked up after the start, and the
    implementation's observation of a real App.Run of the generated Go types. *)
 From Coq Require Import List Arith Bool.
-From IocVerif Require Import Model.App Model.FactoryTrace.
+From IocVerif Require Import Model.App Model.FactoryTrace Model.FactoryX.
 Import ListNotations.
 
 Inductive outcome : Type := OOk | OErr | OPanic | OOther.   (* OOther: crash / hang / harness trouble *)
@@ -23,7 +23,8 @@ Record wcase : Type := mkW {
   w_id : nat;
   w_scn : scenario;
   w_lookups : list name;
-  w_obs : obs
+  w_obs : obs;
+  w_x : extras          (* short-circuiting processors and init-time lookups (Model/FactoryX.v); no_extras for most cases *)
 }.
 
 (* ---- decidable equalities ------------------------------------------------------------------------- *)
@@ -61,9 +62,10 @@ Definition field_eqb (a b : (name * nat) * list ver) : bool :=
 
 (* ---- the model's observation ---------------------------------------------------------------------- *)
 
-Definition all_points (s : scenario) : list (name * nat) :=
+(* the injection points of every component, followed by what its Init looked up (pseudo-fields 100, 101, ...) *)
+Definition all_points (s : scenario) (x : extras) : list (name * nat) :=
   flat_map (fun n => match get_comp (s_pop s) n with
-                     | Some c => map (fun k => (n, k)) (seq 0 (length (c_points c)))
+                     | Some c => map (fun k => (n, k)) (seq 0 (length (c_points c)) ++ seq 100 (length (initget_of x n)))
                      | None => []
                      end) (names_of (s_pop s)).
 
@@ -74,21 +76,14 @@ Definition observable_point (s : scenario) (hk : name * nat) : bool :=
   | None => true
   end.
 
-Definition fields_obs (s : scenario) (st : fstate) : list ((name * nat) * list ver) :=
-  map (fun hk => (hk, field_of st (fst hk) (snd hk))) (filter (observable_point s) (all_points s)).
+Definition fields_obs (s : scenario) (x : extras) (st : fstate) : list ((name * nat) * list ver) :=
+  map (fun hk => (hk, field_of st (fst hk) (snd hk))) (filter (observable_point s) (all_points s x)).
 
 Definition ltoken_of (o : lookup_out) : ltoken :=
   match o with
   | LVer v => LTVer v
   | LFail FPanic => LTPanic
   | LFail _ => LTErr
-  end.
-
-(* the registry history of the model (Model/FactoryTrace.v; erasure, replay and protocol: Proofs/FactoryTraceProofs.v) *)
-Definition model_ops (vt : variant) (c : wcase) : list rop * list rop :=
-  match run_t vt (w_scn c) with
-  | (o1, Ok st) => (o1, fst (lookups_core_t vt (normalise vt (w_scn c)) (w_lookups c) st))
-  | (o1, Fail _ _) => (o1, [])
   end.
 
 Definition optver_eqb (a b : option ver) : bool :=
@@ -107,9 +102,15 @@ Definition rop_eqb (a b : rop) : bool :=
   | _, _ => false
   end.
 
+(* The model's observation AND registry history, from ONE evaluation of the extended traced model
+   (Model/FactoryX.v).  Without extras it is Model/Factory.v's [run] and Model/FactoryTrace.v's history:
+   Proofs/FactoryXProofs.v run_xt_conservative, Proofs/FactoryTraceProofs.v run_erase (restated for this function
+   in Corr/WiringFacts.v model_obs_plain). *)
 Definition model_obs (vt : variant) (c : wcase) : obs :=
   let s := w_scn c in
-  let (oc, st) := match run vt s with
+  let x := w_x c in
+  let (o1, r) := run_xt vt s x in
+  let (oc, st) := match r with
                   | Ok st => (OOk, st)
                   | Fail (FErr _) st => (OErr, st)
                   | Fail FPanic st => (OPanic, st)
@@ -117,10 +118,11 @@ Definition model_obs (vt : variant) (c : wcase) : obs :=
                   end in
   match oc with
   | OOk | OErr =>
-    let (st2, outs) := lookups vt s (w_lookups c) st in
-    mkObs oc (rev (log st)) (fields_obs s st) (map ltoken_of outs)
-          (rev (firstn (length (log st2) - length (log st)) (log st2))) (Some (model_ops vt c))
-  | _ => mkObs oc (rev (log st)) (fields_obs s st) [] [] (Some (model_ops vt c))
+    let '(o2, (st2, outs)) := lookups_core_xt vt (normalise vt s) x (w_lookups c) st in
+    mkObs oc (rev (log st)) (fields_obs s x st) (map ltoken_of outs)
+          (rev (firstn (length (log st2) - length (log st)) (log st2)))
+          (Some (o1, match oc with OOk => o2 | _ => [] end))
+  | _ => mkObs oc (rev (log st)) (fields_obs s x st) [] [] (Some (o1, []))
   end.
 
 (* a = model, b = implementation *)
